@@ -428,7 +428,11 @@ def _apply_setting(settings: dict[str, bool | int | str | Path], rest: str) -> N
     elif key_normalized == "log":
         if value is None:
             raise ValueError("'log' requires a path")
-        settings[key_normalized] = Path(value).expanduser()
+        try:
+            settings[key_normalized] = Path(value).expanduser()
+        except RuntimeError as e:
+            # e.g. ~nosuchuser/x: an invalid line, not a fatal error
+            raise ValueError(f"invalid log path: {e}") from None
 
     else:
         raise ValueError(f"unknown setting '{key}'")
